@@ -47,7 +47,7 @@ static std::vector<CheckSpec> make_specs() {
     add("C09", "exploration", {{"sloppy", 300000}, {"capacity", 2500}}, {{"sloppy", 6000000}, {"capacity", 60000}},
         "parser: sloppy workload, latch monitor over the recorded history - after the first call that sets an error, every advancing call returns false, every getter is neutral, the flag stays set until init/reset/verify(print,to_string). writer: capacity sweep places the first failing write at every position, arbitrary further writes follow: all false, nothing stored, counter keeps matching the reference size. non-trivial = at least one call was made after an error had been latched",
         {"sampling"});
-    add("C16", "exploration", {{"sloppy", 150000}, {"traverse", 60000}, {"nav", 60000}, {"capacity", 400}, {"tostring", 400}, {"cppwrap", 1500}}, {{"sloppy", 5000000}, {"traverse", 2000000}, {"nav", 2000000}, {"capacity", 15000}, {"tostring", 15000}, {"cppwrap", 50000}},
+    add("C16", "exploration", {{"sloppy", 150000}, {"traverse", 60000}, {"nav", 60000}, {"capacity", 1500}, {"tostring", 400}, {"cppwrap", 1500}}, {{"sloppy", 5000000}, {"traverse", 2000000}, {"nav", 2000000}, {"capacity", 15000}, {"tostring", 15000}, {"cppwrap", 50000}},
         "every API call of every run executes under a per-call budget of len+16 token callbacks (exceeding it aborts the call: deterministic liveness violation) and a 10 s CPU watchdog; per call: callbacks <= bytes advanced + 2; verify: callbacks <= len + 2. non-trivial = the run made at least 3 token callbacks",
         {"callback-free loops (writer calls, print / to_string formatting loops) are only seen by the CPU watchdog", "sampling"});
     add("C08", "exploration", {{"traverse", 500000}}, {{"traverse", 8000000}},
